@@ -245,6 +245,8 @@ def main(run: core.Run):
         'broadcast per layer inside the receiver row (none under COMM-OPT), '
         'nothing in a world of one')
     run.sample(cfgs[len(cfgs) // 2])
+    run.cap('two fixed schedules per configuration (the collective trace '
+            'of a rank does not depend on the schedule)')
     run.assumptions += ['histories contain no load_state_dict (C09/C03 '
                         'cover it)', 'simdist stands in for gloo/NCCL']
     if not thorough:
